@@ -1,4 +1,6 @@
 import CffVerif
+#print axioms Sched.C01_at_most_once
+#print axioms Sched.C01_deps_before_start
 #print axioms Sched.C03_at_most_N_running
 #print axioms Sched.C03_default
 #print axioms Sched.C03_worker_slots
